@@ -8,7 +8,7 @@ All arguments are natural numbers separated by blanks.
   next   hid | close hid
   extract docid caching nsel sel*
   parsecmap name next (code cid)*
-DOC      := nobjs (n sid)* nfs (objid FONTSPEC)* nopen n* npages PAGE*        (sid 0 = direct)
+DOC      := nobjs (n sid dangling)* nfs (objid FONTSPEC)* nopen n* npages PAGE*        (sid 0 = direct; dangling 1 = index beyond the stream)
 FONTSPEC := kind vertical base ndiffs (code glyphindex)* hasToU ntou (cid nu u*)* cmap umap usecmap nreads n*
 PAGE     := nwalk n* nfonts FONTREF* nreads n* nshows (fontidx ncodes code*)* ngops (code v)*
              code: 0 re 1 m 2 l 3 h 4 paint 5 n 6 q 7 Q 8 w(v) 9 operand(v)
@@ -103,7 +103,7 @@ def pPage : P PageSpec := fun ts =>
     some ({ walk := walk, fonts := fonts, reads := reads, shows := shows, gops := gops }, ts5)
 
 def pDoc (docid : Nat) : P DocSpec := fun ts =>
-  match pList (pPair pNat pNat) ts with
+  match pList (pPair pNat (pPair pNat pNat)) ts with
   | none => none
   | some (objs, ts1) =>
   match pList (pPair pNat pFontSpec) ts1 with
@@ -116,7 +116,8 @@ def pDoc (docid : Nat) : P DocSpec := fun ts =>
   | none => none
   | some (pages, ts4) =>
     let payload (n : Nat) := docid * 100000 + n
-    let objs' := objs.map (fun e => (e.1, if e.2 = 0 then Loc.direct (payload e.1) else Loc.inStream e.2 (payload e.1)))
+    let objs' := objs.map (fun e => (e.1, if e.2.1 = 0 then Loc.direct (payload e.1)
+      else if e.2.2 = 0 then Loc.inStream e.2.1 (payload e.1) else Loc.danglingIn e.2.1))
     some ({ objs := objs', fontSpecs := fs, openReads := opn, pages := pages }, ts4)
 
 structure DState where
@@ -139,7 +140,7 @@ def showTables (t : Tables) : String :=
 
 def showCaches (c : Caches) : String :=
   "objs=" ++ csv (sortNat (c.objs.map (·.1))) ++ " pobjs=" ++ csv (sortNat (c.pobjs.map (·.1))) ++
-  " fonts=" ++ csv (sortNat (c.fonts.map (·.1)))
+  " fonts=" ++ csv (sortNat (c.fonts.map (·.1))) ++ " busy=" ++ toString c.busy.length
 
 def showGlyph (g : List Nat) : String :=
   match g with
